@@ -117,7 +117,16 @@ class FakeWriteGear:
         pass
 
 
+class _FakeS3:
+    def generate_presigned_url(self, *a, **k):
+        return 'https://presigned.example/object?X-Amz-Signature=0'
+
+
 def install_stubs():
+    from openfilter.filter_runtime.filters import video_in as _vi
+    _vi.HAS_BOTO3 = True
+    _vi.boto3 = types.SimpleNamespace(client=lambda *a, **k: _FakeS3())       # S3 sources are turned into presigned URLs; no network here
+    _vi.NoCredentialsError = _vi.ClientError = type('StubBotoError', (Exception,), {})
     gears = types.ModuleType('vidgear.gears')
     gears.VideoGear = FakeVideoGear
     gears.WriteGear = FakeWriteGear
@@ -169,7 +178,7 @@ def gen_case(rng, k):
     pos = rng.choice(['extra', 'extra', 'native'])
     # class-native credential positions (VideoIn sources / VideoOut outputs accept rtsp:// with credentials)
     if cname == 'VideoIn' and rng.random() < 0.7:
-        pos, scheme = 'sources', rng.choice(['rtsp', 'rtmp', 'http', 'https'])
+        pos, scheme = 'sources', rng.choice(['rtsp', 'rtmp', 'http', 'https', 'file', 's3'])      # file:// and s3:// URIs may carry an authority part too
     elif cname == 'VideoOut' and rng.random() < 0.7:
         pos, scheme = 'outputs', 'rtsp'
     else:
@@ -192,7 +201,7 @@ def gen_case(rng, k):
                 if rng.random() < 0.12:
                     cfg_defaults[key] = val          # filter-wide defaults of the same options
         else:
-            opts = ''.join(o for o in ('!fps=15', '!segtime=1') if rng.random() < 0.3)
+            opts = ''.join(o for o in (rng.choice(['!fps=15', '!fps']), '!segtime=1') if rng.random() < 0.35)     # bare !fps = adaptive frame rate
             for key, val in (('fps', 10), ('segtime', 2), ('bgr', False)):
                 if rng.random() < 0.12:
                     cfg_defaults[key] = val
@@ -296,7 +305,22 @@ def run_case(case, cl, res):
                     else:
                         from openfilter.filter_runtime.frame import Frame
                         frames = {o.get('topic') or 'main': Frame(np.zeros((4, 6, 3), np.uint8), {'meta': {'src_fps': 15}}, 'BGR') for o in f.config.outputs}
-                        f.process(frames)
+                        adaptive = any((o.get('options') or {}).get('fps') is True for o in f.config.outputs) or f.config.get('fps') is True
+                        if not adaptive:
+                            f.process(frames)
+                        else:
+                            # adaptive frame rate: a sustained change of the input rate makes the writer restart its stream
+                            # (5 frames at 30 fps, then 15 s at 10 fps on a clock owned by the harness)
+                            from openfilter.filter_runtime.filters import video_out as _vo
+                            clk, real_ns = [10 ** 15], _vo.time_ns
+                            _vo.time_ns = lambda: clk[0]
+                            try:
+                                for i_ in range(160):
+                                    clk[0] += 33_333_333 if i_ < 5 else 100_000_000
+                                    f.process(frames)
+                            finally:
+                                _vo.time_ns = real_ns
+                            res.count('adaptive_fps_runs')
                     phases.append('process')
                 except BaseException as e:
                     phases.append(f'run-raised:{type(e).__name__}')
